@@ -338,13 +338,13 @@ var specs = map[string]Spec{
 		QuickShards: 16, ThoroughShards: 16, QuickWatchdog: 10 * time.Minute, ThoroughWatchdog: 60 * time.Minute,
 		Level:       "exploration",
 		LevelText:   "Two to three real shard managers are started with their own (isolated) memberlist so that the real delegates and callbacks are installed; the harness is the gossip network: for every subset and time order of competing claims on 1-2 shards it delivers the ownership announcements (built as broadcastShardChange builds them) to every other instance in every permutation, with a duplicate, a full-state merge (LocalState -> MergeRemoteState) and a node-leave inserted, and finally with and without a closing push/pull round. Afterwards each shard must be owned by exactly the instance with the newest live claim, every instance's view of its peers must list the shard only under that owner (after the closing round), and an instance that left must own nothing in any peer's view. The routing clause is probed on the same instances: local stream => delivered locally exactly once; nobody => reported undelivered; local stream closing => reported undelivered; known but unreachable remote owner => reported undelivered and nothing arrives. Reachable remote owner (case peer-stream): a real shard manager opens its intra-proxy stream to a harness peer whose handler accepts k acks and then ends the stream (cleanly / with an error); 'delivered' must mean the peer received the ack exactly once, in particular for acks forwarded in the window - held open at the code's own log point - in which the peer has ended the stream and the instance's receive loop knows it but has not removed the stream yet.",
-		LevelNote:   "Permutations of deliveries are exhaustive for the listed families (2 instances/1 shard, 3 instances/1 shard, 2 instances/2 shards, up to 7 deliveries); timing between real goroutines is not involved (the delegates are called synchronously by the harness). Forwarding to a reachable remote owner is observed by an extra pass of the wire engine: two assembled proxy instances really joined by memberlist on loopback, each holding half of the shards' streams, both clusters fake; every task whose owner shard lives on the other instance must arrive exactly once on the right shard (routesim recorder) and every source must be acknowledged to its final watermark; the evidence counts messages and acks that crossed between the instances. Two start orders: both instances together; late-joiner (instance b joins a running instance a with an empty state and gets its shard streams afterwards, as in a rolling restart). An instance that names a known owner and address but reports the same shard pair undelivered >= 5 times over > 20 s up to the end of the run is a violation; shorter spells while a peer stream is set up are allowed by the statement and only counted. Second part of the extra pass (TestPeerSender): one assembled instance and the harness as its peer (a real memberlist member announcing the target shard, serving the streams the instance opens to it and opening the stream the instance forwards on); the source sends single tasks of that target on command; the harness breaks its stream (cancel / half-close), the instance's sender is held at its own log point between seeing the end and unregistering, a task is sent into that window, and the stream is re-established after or before the old handler has unwound; every task sent must reach the owner.",
+		LevelNote:   "Permutations of deliveries are exhaustive for the listed families (2 instances/1 shard, 3 instances/1 shard, 2 instances/2 shards, up to 7 deliveries); timing between real goroutines is not involved (the delegates are called synchronously by the harness). Forwarding to a reachable remote owner is observed by an extra pass of the wire engine: two assembled proxy instances really joined by memberlist on loopback, each holding half of the shards' streams, both clusters fake; every task whose owner shard lives on the other instance must arrive exactly once on the right shard (routesim recorder) and every source must be acknowledged to its final watermark; the evidence counts messages and acks that crossed between the instances. Three variants: both instances start together; late-joiner (instance b joins a running instance a with an empty state and gets its shard streams afterwards, as in a rolling restart); shard-moves (in the middle of two seconds of traffic the stream of one target shard is closed on instance b and re-opened against instance a, as when Temporal's frontend moves it: every task the sources send a second or more after the move must reach a target stream). An instance that names a known owner and address but reports the same shard pair undelivered >= 5 times over > 20 s up to the end of the run is a violation; shorter spells while a peer stream is set up are allowed by the statement and only counted. Second part of the extra pass (TestPeerSender): one assembled instance and the harness as its peer (a real memberlist member announcing the target shard, serving the streams the instance opens to it and opening the stream the instance forwards on); the source sends single tasks of that target on command; the harness breaks its stream (cancel / half-close), the instance's sender is held at its own log point between seeing the end and unregistering, a task is sent into that window, and the stream is re-established after or before the old handler has unwound; every task sent must reach the owner.",
 		Technique:   "runtime monitor: harness-as-network permutation of real delegate callbacks on real shard managers; convergence and view oracles; routing-result probes",
 		DesignRef:   "DESIGN.md §4 C09",
 		Rule:        "cases = blocks of 200 scenarios (claim order x delivery permutation x {plain, duplicate, merge, leave position}) each run with and without a final sync; distinct = (family, shape, length) classes",
 		Exhaustive:  "all delivery permutations of the listed claim families",
 		Assumptions: []string{"announcements are delivered at least once to every other live instance (memberlist reliable send)", "registration times are distinct (2 µs apart)"},
-		QuickFloors: map[string]int64{"scenarios": 2000, "routing_probes": 50, "termination_windows_held": 6, "tasks_sent_into_window": 2, "cluster_runs_completed": 1, "messages_forwarded_between_instances": 5},
+		QuickFloors: map[string]int64{"scenarios": 2000, "routing_probes": 50, "termination_windows_held": 6, "tasks_sent_into_window": 2, "cluster_runs_completed": 1, "tasks_sent_after_the_move_delivered": 10, "messages_forwarded_between_instances": 5},
 		MaxSamples:  2,
 	},
 	"C15": {
